@@ -1,0 +1,267 @@
+//! Read-only observation hooks for external verification tooling.
+//!
+//! Compiled only with `--cfg hashbrown_verif`. Nothing in here mutates a table;
+//! the wrappers re-export private pure functions unchanged.
+#![allow(missing_docs, clippy::missing_safety_doc, clippy::must_use_candidate)]
+
+use super::{
+    bucket_mask_to_capacity as bm2c, capacity_to_buckets as c2b, h1 as raw_h1, ProbeSeq, RawTable,
+    RawTableInner, TableLayout,
+};
+use crate::alloc::vec::Vec;
+use crate::control::{Group, Tag};
+use crate::raw::Allocator;
+
+/// Width in bytes of the control-byte scan group of this build.
+pub const GROUP_WIDTH: usize = Group::WIDTH;
+
+/// Snapshot of the bookkeeping fields and control bytes of a table.
+#[derive(Clone, Debug, PartialEq, Eq)]
+pub struct Dump {
+    pub bucket_mask: usize,
+    pub items: usize,
+    pub growth_left: usize,
+    /// `bucket_mask + 1 + GROUP_WIDTH` control bytes (`GROUP_WIDTH` for the static singleton).
+    pub ctrl: Vec<u8>,
+    pub is_singleton: bool,
+}
+
+impl<T, A: Allocator> RawTable<T, A> {
+    /// Snapshot of `bucket_mask`, `items`, `growth_left` and all control bytes.
+    pub fn verif_dump(&self) -> Dump {
+        let n = if self.table.is_empty_singleton() {
+            Group::WIDTH
+        } else {
+            self.table.num_ctrl_bytes()
+        };
+        let mut ctrl = Vec::with_capacity(n);
+        for i in 0..n {
+            ctrl.push(unsafe { *self.table.ctrl.as_ptr().add(i) });
+        }
+        Dump {
+            bucket_mask: self.table.bucket_mask,
+            items: self.table.items,
+            growth_left: self.table.growth_left,
+            ctrl,
+            is_singleton: self.table.is_empty_singleton(),
+        }
+    }
+
+    /// The element in bucket `index` if its control byte says FULL.
+    pub fn verif_bucket(&self, index: usize) -> Option<&T> {
+        if self.table.is_empty_singleton() || index > self.table.bucket_mask {
+            return None;
+        }
+        unsafe {
+            if self.table.is_bucket_full(index) {
+                Some(self.bucket(index).as_ref())
+            } else {
+                None
+            }
+        }
+    }
+
+    /// Address of the data slot `index` (for alignment / disjointness observation only).
+    pub fn verif_bucket_addr(&self, index: usize) -> usize {
+        if self.table.is_empty_singleton() || index > self.table.bucket_mask {
+            return 0;
+        }
+        unsafe { self.bucket(index).as_ptr() as usize }
+    }
+
+    /// Address of control byte 0.
+    pub fn verif_ctrl_addr(&self) -> usize {
+        self.table.ctrl.as_ptr() as usize
+    }
+}
+
+impl<K, V, S, A: Allocator> crate::HashMap<K, V, S, A> {
+    pub fn verif_dump(&self) -> Dump {
+        self.table.verif_dump()
+    }
+    pub fn verif_bucket(&self, index: usize) -> Option<&(K, V)> {
+        self.table.verif_bucket(index)
+    }
+    pub fn verif_bucket_addr(&self, index: usize) -> usize {
+        self.table.verif_bucket_addr(index)
+    }
+    pub fn verif_ctrl_addr(&self) -> usize {
+        self.table.verif_ctrl_addr()
+    }
+}
+
+impl<T, S, A: Allocator> crate::HashSet<T, S, A> {
+    pub fn verif_dump(&self) -> Dump {
+        self.map.table.verif_dump()
+    }
+    pub fn verif_bucket(&self, index: usize) -> Option<&T> {
+        self.map.table.verif_bucket(index).map(|kv| &kv.0)
+    }
+}
+
+impl<T, A: Allocator> crate::HashTable<T, A> {
+    pub fn verif_dump(&self) -> Dump {
+        self.raw.verif_dump()
+    }
+    pub fn verif_bucket(&self, index: usize) -> Option<&T> {
+        self.raw.verif_bucket(index)
+    }
+    pub fn verif_bucket_addr(&self, index: usize) -> usize {
+        self.raw.verif_bucket_addr(index)
+    }
+    pub fn verif_ctrl_addr(&self) -> usize {
+        self.raw.verif_ctrl_addr()
+    }
+}
+
+// ---------------------------------------------------------------- pure functions
+
+pub fn h1(hash: u64) -> usize {
+    raw_h1(hash)
+}
+
+fn tag(b: u8) -> Tag {
+    // `Tag` is `#[repr(transparent)]` over `u8`.
+    unsafe { core::mem::transmute::<u8, Tag>(b) }
+}
+
+fn tag_u8(t: Tag) -> u8 {
+    unsafe { core::mem::transmute::<Tag, u8>(t) }
+}
+
+pub fn tag_full(hash: u64) -> u8 {
+    tag_u8(Tag::full(hash))
+}
+
+pub fn tag_is_full(b: u8) -> bool {
+    tag(b).is_full()
+}
+
+pub fn tag_is_special(b: u8) -> bool {
+    tag(b).is_special()
+}
+
+pub fn tag_special_is_empty(b: u8) -> bool {
+    tag(b).special_is_empty()
+}
+
+pub fn capacity_to_buckets(cap: usize, size: usize, ctrl_align: usize) -> Option<usize> {
+    c2b(cap, TableLayout { size, ctrl_align })
+}
+
+pub fn bucket_mask_to_capacity(bucket_mask: usize) -> usize {
+    bm2c(bucket_mask)
+}
+
+/// `(size, ctrl_align)` of `TableLayout::new::<T>()`.
+pub fn table_layout_new<T>() -> (usize, usize) {
+    let l = TableLayout::new::<T>();
+    (l.size, l.ctrl_align)
+}
+
+/// `(layout.size(), layout.align(), ctrl_offset)`.
+pub fn calculate_layout_for(
+    size: usize,
+    ctrl_align: usize,
+    buckets: usize,
+) -> Option<(usize, usize, usize)> {
+    TableLayout { size, ctrl_align }
+        .calculate_layout_for(buckets)
+        .map(|(l, off)| (l.size(), l.align(), off))
+}
+
+/// First `steps` positions of the probe sequence for `hash` in a table with `bucket_mask`.
+pub fn probe_positions(hash: u64, bucket_mask: usize, steps: usize) -> Vec<usize> {
+    let mut seq = ProbeSeq {
+        pos: raw_h1(hash) & bucket_mask,
+        stride: 0,
+    };
+    let mut out = Vec::with_capacity(steps);
+    for _ in 0..steps {
+        out.push(seq.pos);
+        // `move_next` without the debug assertion on the stride (observation of the arithmetic only).
+        seq.stride += Group::WIDTH;
+        seq.pos += seq.stride;
+        seq.pos &= bucket_mask;
+    }
+    out
+}
+
+/// `ProbeSeq::move_next` itself, one step.
+pub fn probe_move_next(pos: usize, stride: usize, bucket_mask: usize) -> (usize, usize) {
+    let mut seq = ProbeSeq { pos, stride };
+    seq.move_next(bucket_mask);
+    (seq.pos, seq.stride)
+}
+
+pub fn is_in_same_group(i: usize, new_i: usize, hash: u64, bucket_mask: usize) -> bool {
+    let mut t = RawTableInner::NEW;
+    t.bucket_mask = bucket_mask;
+    t.is_in_same_group(i, new_i, hash)
+}
+
+// ---------------------------------------------------------------- group primitives
+
+fn load(bytes: &[u8]) -> Group {
+    assert!(bytes.len() >= Group::WIDTH);
+    unsafe { Group::load(bytes.as_ptr().cast()) }
+}
+
+fn lanes<I: IntoIterator<Item = usize>>(m: I) -> Vec<usize> {
+    m.into_iter().collect()
+}
+
+pub fn group_match_tag(bytes: &[u8], tag: u8) -> Vec<usize> {
+    lanes(load(bytes).match_tag(self::tag(tag)))
+}
+
+pub fn group_match_empty(bytes: &[u8]) -> Vec<usize> {
+    lanes(load(bytes).match_empty())
+}
+
+pub fn group_match_empty_or_deleted(bytes: &[u8]) -> Vec<usize> {
+    lanes(load(bytes).match_empty_or_deleted())
+}
+
+pub fn group_match_full(bytes: &[u8]) -> Vec<usize> {
+    lanes(load(bytes).match_full())
+}
+
+/// `(any_bit_set, lowest_set_bit, trailing_zeros, leading_zeros)` of a mask selected by `which`:
+/// 0 = match_tag(tag), 1 = match_empty, 2 = match_empty_or_deleted, 3 = match_full.
+pub fn group_mask_queries(bytes: &[u8], which: u8, tag: u8) -> (bool, Option<usize>, usize, usize) {
+    let g = load(bytes);
+    let m = match which {
+        0 => g.match_tag(self::tag(tag)),
+        1 => g.match_empty(),
+        2 => g.match_empty_or_deleted(),
+        _ => g.match_full(),
+    };
+    (
+        m.any_bit_set(),
+        m.lowest_set_bit(),
+        m.trailing_zeros(),
+        m.leading_zeros(),
+    )
+}
+
+pub fn group_convert(bytes: &[u8]) -> Vec<u8> {
+    // `store_aligned` needs an aligned destination.
+    #[repr(C, align(16))]
+    struct Buf([u8; 16]);
+    #[repr(C, align(16))]
+    struct Src([u8; 16]);
+    let mut src = Src([0; 16]);
+    src.0[..Group::WIDTH].copy_from_slice(&bytes[..Group::WIDTH]);
+    let mut buf = Buf([0; 16]);
+    unsafe {
+        let g = Group::load_aligned(src.0.as_ptr().cast());
+        g.convert_special_to_empty_and_full_to_deleted()
+            .store_aligned(buf.0.as_mut_ptr().cast());
+    }
+    buf.0[..Group::WIDTH].to_vec()
+}
+
+pub fn static_empty() -> Vec<u8> {
+    Group::static_empty().iter().map(|t| tag_u8(*t)).collect()
+}
